@@ -254,13 +254,13 @@ PROPS["C17"] = dict(
     level="exploration",
     runs=dict(quick=9000, thorough=200000), budget_s=dict(quick=170, thorough=1700), mem_gb=None,
     rule="one evaluation = one seeded program (8-90 calls, thorough up to 200: Put/Delete/Get/GetAppend/Has/Count/Items/Sync/Compact/FileSize, clean Close/Open, and 0-2 unclean shutdowns taken as a copy of the directory right before the k-th mutating file-system call of an operation "
-         "- optionally with the in-flight write torn at a 512-byte boundary, or zeros / garbage appended to the newest segment) executed four times: on the simulated disk, fs.Mem, fs.OS and fs.OSMMap, with the same hash seeds and the same (seeded) directory listing order; "
+         "- optionally with the in-flight write torn at a 512-byte boundary, or zeros / garbage appended to the newest segment; after 1 unclean shutdown in 3 the recovering Open is itself cut short the same way, so the next recovery starts from moved-aside index files and a half-rebuilt index) executed four times: on the simulated disk, fs.Mem, fs.OS and fs.OSMMap, with the same hash seeds and the same (seeded) directory listing order; "
          "the four traces (every call's result, error nil-ness, Count, sorted scan digests, CompactionResult, FileSize, recovery yes/no, and name:length:digest of every segment file at checkpoints after each Close, each recovery, every 8th call) must be identical, "
          "every result must equal the reference map, after an unclean shutdown each key must hold its value from before or after the operation in flight; distinct_nontrivial = distinct traces",
     real=REAL_XFS, stub=["crypto/rand (same hash seed on every file system)", "the simulated disk is one of the four file systems compared"],
     assumptions=["unclean shutdown on the real file systems = copy of the directory taken through the FileSystem interface while the database is open (process-crash image; no power-loss model on real files)",
                  "the mapping-doubling path of fs.OSMMap (files beyond the initial 1 GiB mapping) is not reached"],
-    must_reach=dict(quick=["program_executed_on_simfs", "program_executed_on_mem", "program_executed_on_os", "program_executed_on_osmmap", "recovery_ran", "torn_write", "damaged_tail", "compacted_segments", "unclean_shutdown_inside_op"],
+    must_reach=dict(quick=["program_executed_on_simfs", "program_executed_on_mem", "program_executed_on_os", "program_executed_on_osmmap", "recovery_ran", "torn_write", "damaged_tail", "compacted_segments", "unclean_shutdown_inside_op", "unclean_shutdown_inside_recovery"],
                     thorough=["torn_write", "recovery_ran"]),
 )
 TEXT["C17"] = _t("harness", "deterministic simulation, differential configuration: one seeded program incl. injected unclean shutdowns (directory snapshot before the k-th FS call, torn in-flight write, damaged tail) executed on the simulated disk and the three shipped file systems; traces and segment bytes compared",
